@@ -141,7 +141,7 @@ def shared_history(prog_text, query_txts, order, evidence, ev_pos, fail_at, use_
         return sut.outcome_of_exception(e), ncalls
 
 
-def fresh_single(prog_text, qtxt, evidence):
+def fresh_single(prog_text, qtxt, evidence, propagate=False):
     from problog.program import PrologString
     from problog.engine import DefaultEngine
     from problog.formula import LogicFormula
@@ -149,7 +149,9 @@ def fresh_single(prog_text, qtxt, evidence):
     try:
         eng = DefaultEngine()
         db = eng.prepare(PrologString(prog_text))
-        gp = eng.ground_all(db, target=LogicFormula(), queries=[_term(qtxt)], evidence=[(_term(e), v) for e, v in evidence])
+        # same options as the shared history: only the history differs
+        gp = eng.ground_all(db, target=LogicFormula(), queries=[_term(qtxt)], evidence=[(_term(e), v) for e, v in evidence],
+                            propagate_evidence=propagate)
         res = get_evaluatable().create_from(gp).evaluate()
         return dict(kind="ok", result={str(k): v for k, v in res.items()})
     except Exception as e:  # noqa
@@ -191,7 +193,7 @@ def run_case(case):
     # compare with fresh single-query groundings
     union = {}
     for k in case["order"]:
-        f = fresh_single(text, qs[k], evidence)
+        f = fresh_single(text, qs[k], evidence, propagate=bool(case.get("use_ground_all") and case.get("propagate")))
         if f["kind"] != "ok":
             if o["kind"] == "ok" or o.get("exc") != f.get("exc"):
                 if o["kind"] != f["kind"]:
